@@ -424,14 +424,16 @@ impl VersionManager {
             let current_min = self.min_version.load(Ordering::Acquire);
             let version = self.current_version.fetch_add(1, Ordering::AcqRel) + 1;
 
+            // Count the token while the lock that assigned its version is still held, so
+            // try_advance_min_version can never observe "no live tokens" in between.
+            self.active_readers.fetch_add(1, Ordering::Relaxed);
+
             (version, current_min)
         } else {
             // Single-threaded modes don't need version tracking
+            self.active_readers.fetch_add(1, Ordering::Relaxed);
             (1, 1)
         };
-
-        // Increment active reader count
-        self.active_readers.fetch_add(1, Ordering::Relaxed);
 
         // Update statistics
         if let Ok(mut stats) = self.stats.lock() {
@@ -494,15 +496,19 @@ impl VersionManager {
             let current_min = self.min_version.load(Ordering::Acquire);
             let version = self.current_version.fetch_add(1, Ordering::AcqRel) + 1;
 
+            // Count the token while the lock that assigned its version is still held
+            // (already counted when the single writer slot was reserved).
+            if !writer_reserved {
+                self.active_writers.fetch_add(1, Ordering::Relaxed);
+            }
+
             (version, current_min)
         } else {
+            if !writer_reserved {
+                self.active_writers.fetch_add(1, Ordering::Relaxed);
+            }
             (1, 1)
         };
-
-        // Increment active writer count (already counted when the slot was reserved)
-        if !writer_reserved {
-            self.active_writers.fetch_add(1, Ordering::Relaxed);
-        }
 
         // Update statistics
         if let Ok(mut stats) = self.stats.lock() {
@@ -557,6 +563,13 @@ impl VersionManager {
     /// This is a simplified version - in a full implementation, this would
     /// track individual token versions in a linked list.
     fn try_advance_min_version(&self) {
+        // Serialise with token acquisition: version assignment and the live-count increment
+        // happen under this lock, so "both counts are zero" means no token is live or
+        // half-acquired.
+        let _lock = self
+            .token_chain_mutex
+            .lock()
+            .unwrap_or_else(|e| e.into_inner());
         if self.active_readers.load(Ordering::Relaxed) == 0
             && self.active_writers.load(Ordering::Relaxed) == 0
         {
